@@ -85,6 +85,11 @@ static bool runOne(const sim::Plan &plan, gs::Env &env, sim::RunResult &res) {
         fprintf(stderr, "bgsim: no instantiation for %s/%s\n", plan.cls.c_str(), plan.lab.c_str());
         exit(2);
     }
+    if (env.dirty) { // one run = a function of its plan: nothing a previous run wrote may be visible
+        nftw(g_dir.c_str(), rmOne, 16, FTW_DEPTH | FTW_PHYS);
+        mkdir(g_dir.c_str(), 0700);
+        env.dirty = false;
+    }
     alarm(BGSIM_SANITIZED ? 300 : 120); // watchdog: a run that hangs ends with SIGALRM and is reported as such
     f(plan, res, env);
     alarm(0);
